@@ -713,6 +713,33 @@ pub fn run(ctx: &Ctx) -> Outcome {
         });
     }
 
+    // 2b. the offset domain itself: every second count in [-90000, 90000] and the i32 extremes:
+    //     east_opt/west_opt succeed exactly inside (-24 h, +24 h) and mirror each other
+    {
+        let mut loc = rep.local();
+        let mut cands: Vec<i64> = (-90_000..=90_000).collect();
+        cands.extend([i32::MIN as i64, i32::MIN as i64 + 1, i32::MAX as i64, i32::MAX as i64 - 1]);
+        for sct in cands {
+            loc.eval();
+            let sct32 = sct as i32;
+            match guard(|| (FixedOffset::east_opt(sct32), sct32.checked_neg().and_then(FixedOffset::west_opt), FixedOffset::west_opt(sct32))) {
+                Ok((e, w_of_neg, w)) => {
+                    let ok = sct.abs() < 86_400;
+                    let e_ok = e.map(|o| o.local_minus_utc() as i64 == sct && o.utc_minus_local() as i64 == -sct);
+                    let w_ok = w.map(|o| o.local_minus_utc() as i64 == -sct);
+                    if e.is_some() != ok || w.is_some() != ok || e_ok == Some(false) || w_ok == Some(false) || (sct32 != i32::MIN && w_of_neg != e) {
+                        loc.violation("C04/FixedOffset::east_opt-west_opt/wrong-domain-or-value", json!({"seconds": sct, "east_opt": format!("{:?}", e), "west_opt": format!("{:?}", w), "west_opt_of_negated": format!("{:?}", w_of_neg)}));
+                    }
+                }
+                Err(p) => loc.violation(&format!("C04/FixedOffset::east_opt-west_opt/panic@{}", p.site()), json!({"seconds": sct, "panic": p.to_json()})),
+            }
+            if sct.abs() >= 86_398 {
+                loc.bucket(x.off_ext);
+                loc.nontrivial(h2(77, sct as u64));
+            }
+        }
+    }
+
     // 3. pairs
     {
         let n_vals = ctx.tier.pick(600usize, 2500usize);
